@@ -954,6 +954,42 @@ func run(c *lib.Ctx) {
 		}
 		dfs([]string{n})
 	}
+	if depth == 2 {
+		// quick tier: additionally every sequence of depth 3 over the requests that
+		// touch the authorization state itself (Nonce, Token, all Auth shapes):
+		// nonce / token reuse after a failed attempt needs three requests
+		var authNames []string
+		for _, n := range names {
+			if strings.HasPrefix(n, "Auth(") || n == "Nonce" || n == "Token" {
+				authNames = append(authNames, n)
+			}
+		}
+		c.Set("auth_alphabet(depth 3 in the quick tier)", authNames)
+		k := 0
+		for _, a := range authNames {
+			for _, b := range authNames {
+				for _, d := range authNames {
+					k++
+					if k%c.NShards != c.Shard || c.Expired() {
+						continue
+					}
+					seq := []string{a, b, d}
+					o := runSeq(byName, seq)
+					c.Eval(1)
+					c.Transition(o.executed)
+					c.TraceValidated(o.executed)
+					c.Nontrivial(1)
+					for _, f := range o.fails {
+						if f.class != "" && witnessFails[f.class] {
+							c.Count("class:"+f.class, 1)
+							continue
+						}
+						c.Fail(f.class, caseT{Seq: seq}, "sequence %s: %s", strings.Join(seq, " ; "), f.msg)
+					}
+				}
+			}
+		}
+	}
 	if c.Expired() {
 		c.Cap("budget reached before all sequences of depth %d were run", depth)
 	}
